@@ -382,8 +382,8 @@ C12_DataConversion(V) ==
 \* C12_Strings: block kinds around string literals.  Every string literal is a
 \* block of its own (typed ascii, or string when NUL-terminated); a directive
 \* whose only output is a NUL terminates the ASCII literal before it when
-\* nothing was emitted in between in that section (no byte, no instruction, no
-\* label), and is an ASCII literal of its own otherwise.  head[i] = the token
+\* nothing was emitted or requested in between in that section (no byte, no
+\* instruction, no label, no alignment), and is an ASCII literal of its own otherwise.  head[i] = the token
 \* that starts the block of string token i (0 for other tokens).
 StrHeads(V) ==
   LET f[i \in 0..Len(V.toks)] ==
@@ -396,7 +396,8 @@ StrHeads(V) ==
                       THEN [open |-> [p.open EXCEPT ![s] = 0], head |-> Append(p.head, p.open[s])]
                       ELSE [open |-> [p.open EXCEPT ![s] = IF t.k = "ascii" \/ IsNul(t) THEN i ELSE 0],
                             head |-> Append(p.head, i)]
-                 ELSE IF t.n > 0 \/ t.k = "label"
+                 \* (an alignment request in between applies to the NUL: no merge)
+                 ELSE IF t.n > 0 \/ t.k \in {"label", "align"}
                  THEN [open |-> [p.open EXCEPT ![s] = 0], head |-> Append(p.head, 0)]
                  ELSE [open |-> p.open, head |-> Append(p.head, 0)]
   IN  f[Len(V.toks)].head
@@ -431,20 +432,7 @@ AlignOK(V, s, b) ==
 C12_Alignment(V) ==
   \A q \in DOMAIN V.R.secs : \A j \in DOMAIN V.R.secs[q].blocks :
      AlignOK(V, V.R.secs[q].name, V.R.secs[q].blocks[j])
-\* (OPEN finding KF-C12-5, mirrored by the model: an alignment request written
-\*  between an ASCII literal and the stand-alone NUL that terminates it ends up
-\*  on the block behind the NUL)
-AlignMovedPastNul(V) ==
-  LET hd == StrHeads(V)
-      merged(s) == {i \in Idx(V) : V.pos[i].sec = s /\ hd[i] # 0 /\ hd[i] # i}
-  IN  \A q \in DOMAIN V.R.secs : \A j \in DOMAIN V.R.secs[q].blocks :
-        LET s == V.R.secs[q].name
-            b == V.R.secs[q].blocks[j]
-        IN  \/ AlignOK(V, s, b)
-            \/ /\ AlignIdx(V, s, b.o) = {}
-               /\ \E i \in merged(s) :
-                     /\ V.pos[i].o + 1 = b.o /\ AlignIdx(V, s, V.pos[i].o) # {}
-                     /\ b.al = Max({V.toks[r].a : r \in AlignIdx(V, s, V.pos[i].o)})
+
 \* C12_Operands.  fo/fs: where the independent disassembler places the
 \* displacement / immediate fields of the instruction (x86); <<>> = unknown
 ExpAttrs(V, t, tgt) ==
@@ -739,10 +727,12 @@ Terminate(s) ==
 \* emit_bytes: an empty literal emits nothing (no block, no encoding); the
 \* NUL of an empty .string is then an ordinary one-byte literal
 \* emit_bytes(NUL): terminate the previous block if the current block is still
-\* empty and the previous block is an ASCII literal; a literal of its own otherwise
+\* empty, carries no alignment and the previous block is an ASCII literal; a
+\* literal of its own otherwise
 CanTerminate(s) ==
   LET bs == s.secs[s.cur].blocks
-  IN  s.blk[Last(bs)].size = 0 /\ Len(bs) >= 2 /\ GetF(s.bt, bs[Len(bs) - 1], "") = "ascii"
+  IN  /\ s.blk[Last(bs)].size = 0 /\ Len(bs) >= 2 /\ GetF(s.bt, bs[Len(bs) - 1], "") = "ascii"
+      /\ GetF(s.al, Last(bs), 0) = 0        \* an alignment directive in between applies to the NUL
 NulBytes(s) == IF CanTerminate(s) THEN Terminate(s) ELSE Encoded(s, 1, "ascii")
 DoAscii(s, t) == IF t.n = 0 THEN s ELSE IF IsNul(t) THEN NulBytes(s) ELSE Encoded(s, t.n, "ascii")
 DoString(s, t) == IF t.n = 1 THEN NulBytes(s) ELSE NulBytes(Encoded(s, t.n - 1, "ascii"))
@@ -1046,7 +1036,7 @@ LevelA(V, dec) ==
   /\ C12_Decode(V, dec) /\ C12_Tiling(V) /\ C12_TerminatorsEndBlocks(V) /\ C12_EdgeShape(V)
   /\ C12_Fallthrough(V) /\ C12_Labels(V) /\ (HasCfi(V) \/ C12_DataConversion(V))
   /\ C12_Operands(V, dec) /\ C13_Binding(V) /\ C13_TempSuffix(V) /\ C13_Assignments(V) /\ C12_Strings(V)
-  /\ (C12_Alignment(V) \/ AlignMovedPastNul(V))
+  /\ C12_Alignment(V)
 \* the model agrees with the function RunAll (the actions and the fold are the same machine)
 FoldAgrees == ph = "done" => fin = RunAll(par, prog)
 InvDone ==
